@@ -338,14 +338,41 @@ def inline_private_properties(tree):
     return n
 
 
+FOREIGN_PRIVATE_PROPS = {}
+
+
+def collect_package_private_props(trees):
+    """{name: (self name, expression)} of the private read-only one-expression properties that exactly one class of the package
+    defines and nothing in the package stores or defines otherwise"""
+    defs, stored, fdefs = {}, set(), {}
+    for t in trees.values():
+        for n in ast.walk(t):
+            if isinstance(n, ast.Attribute) and isinstance(n.ctx, (ast.Store, ast.Del)):
+                stored.add(n.attr)
+            if isinstance(n, ast.FunctionDef):
+                fdefs[n.name] = fdefs.get(n.name, 0) + 1
+        for cls in [st for st in t.body if isinstance(st, ast.ClassDef)]:
+            for s_ in cls.body:
+                if isinstance(s_, ast.FunctionDef) and s_.name.startswith("_") and not s_.name.startswith("__") and s_.name not in PROTECTED \
+                        and [ast.unparse(d) for d in s_.decorator_list] == ["property"] and len(s_.args.args) == 1:
+                    body = strip_doc(s_.body)
+                    if len(body) == 1 and isinstance(body[0], ast.Return) and body[0].value is not None and _pure_expr(body[0].value) \
+                            and all(isinstance(y, (ast.Name, ast.Attribute, ast.Load, ast.Constant)) for y in ast.walk(body[0].value)):
+                        defs.setdefault(s_.name, []).append((s_.args.args[0].arg, body[0].value))
+    return {k: v[0] for k, v in defs.items() if len(v) == 1 and k not in stored and fdefs.get(k) == 1}
+
+
 def inline_private_properties_anywhere(tree):
     """X._name where `_name` is a private read-only single-return property defined by exactly ONE class of the module and stored
     nowhere (so whatever X is, if it has `_name` at all it is that property): its expression with self := X.  X must be a plain
     name / attribute / subscript path (evaluated where the property body uses self, possibly several times)."""
     defs = {}
     for cls in [st for st in tree.body if isinstance(st, ast.ClassDef)]:
+        # a predicate property of an enumeration (`format.has_links`) is such a named expression too, whatever its name: members of an
+        # Enum cannot be given other attributes of that name
+        is_enum = any(ast.unparse(b).split(".")[-1] in ("Enum", "IntEnum", "Flag", "IntFlag") for b in cls.bases)
         for s_ in cls.body:
-            if isinstance(s_, ast.FunctionDef) and s_.name.startswith("_") and not s_.name.startswith("__") and s_.name not in PROTECTED \
+            if isinstance(s_, ast.FunctionDef) and (s_.name.startswith("_") or is_enum and s_.name not in ("name", "value")) and not s_.name.startswith("__") and s_.name not in PROTECTED \
                     and [ast.unparse(d) for d in s_.decorator_list] == ["property"] and len(s_.args.args) == 1:
                 body = strip_doc(s_.body)
                 if len(body) == 1 and isinstance(body[0], ast.Return) and body[0].value is not None and _pure_expr(body[0].value):
@@ -360,6 +387,10 @@ def inline_private_properties_anywhere(tree):
         if isinstance(n, ast.FunctionDef):
             other_defs[n.name] = other_defs.get(n.name, 0) + 1
     props = {k: v[0] for k, v in defs.items() if len(v) == 1 and k not in stored and other_defs.get(k) == 1}
+    # the same for a private property that another module of the package defines (exactly one definition package-wide, stored nowhere)
+    for k, (sn_, expr_) in FOREIGN_PRIVATE_PROPS.items():
+        if k not in props and k not in stored and k not in other_defs:
+            props[k] = (None, None, sn_, expr_)
     if not props:
         return 0
     n_done = [0]
@@ -381,7 +412,7 @@ def inline_private_properties_anywhere(tree):
     for st in tree.body:
         if isinstance(st, ast.ClassDef):
             for s_ in st.body:
-                if isinstance(s_, ast.FunctionDef) and not any(s_ is v[1] for v in props.values()):
+                if isinstance(s_, ast.FunctionDef) and not any(v[1] is not None and s_ is v[1] for v in props.values()):
                     for _ in range(2):
                         P().visit(s_)
         elif isinstance(st, ast.FunctionDef):
@@ -389,7 +420,7 @@ def inline_private_properties_anywhere(tree):
     # drop the properties nothing reads any more
     still = {x.attr for x in ast.walk(tree) if isinstance(x, ast.Attribute) and x.attr in props}
     for name, (cls, fn, _, _) in props.items():
-        if name not in still:
+        if name not in still and cls is not None:
             cls.body = [b for b in cls.body if b is not fn] or [ast.Pass()]
     if n_done[0]:
         ast.fix_missing_locations(tree)
@@ -1209,6 +1240,57 @@ def _bring_names(fn, src_b, src_modname, tree, here):
     return True
 
 
+def copy_inherited_private_methods(tree, trees, pkg):
+    """class C(B) with B imported from another module of the package, and a method of C calls `self._m(..)` / `cls._m(..)` / `C._m(..)`
+    / `B._m(..)` where `_m` is a plain private method (or staticmethod) of B that C does not define: the definition is copied into
+    C's body - which is what inheritance means - so that the helper inliner sees it like C's own private method.  Skipped when a
+    name the method uses is bound to something else in this module, or when any subclass in the package overrides `_m`."""
+    here = _module_bindings(tree)
+    done = []
+    imported = {}
+    for st in tree.body:
+        if isinstance(st, ast.ImportFrom) and st.module:
+            parts = st.module.split(".")
+            if parts[0] == pkg and len(parts) == 2 and parts[1] in trees:
+                for a in st.names:
+                    c = next((d for d in trees[parts[1]].body if isinstance(d, ast.ClassDef) and d.name == a.name), None)
+                    if c is not None:
+                        imported[a.asname or a.name] = (c, trees[parts[1]], st.module)
+    if not imported:
+        return done
+    overridden = {m.name for t in trees.values() for c in t.body if isinstance(c, ast.ClassDef) and c.bases for m in c.body if isinstance(m, ast.FunctionDef)}
+    for cls in [c for c in tree.body if isinstance(c, ast.ClassDef)]:
+        bases = [ast.unparse(b) for b in cls.bases]
+        own = {m.name for m in cls.body if isinstance(m, ast.FunctionDef)}
+        for call in [n for n in ast.walk(cls) if isinstance(n, ast.Call)]:
+            f = call.func
+            if not (isinstance(f, ast.Attribute) and isinstance(f.value, ast.Name) and f.attr.startswith("_") and not f.attr.startswith("__") and f.attr not in own):
+                continue
+            if f.value.id not in ("self", "cls", cls.name) and f.value.id not in bases:
+                continue
+            for b in bases:
+                if b not in imported:
+                    continue
+                bdef, src, src_mod = imported[b]
+                meth = next((m for m in bdef.body if isinstance(m, ast.FunctionDef) and m.name == f.attr), None)
+                if meth is None or f.attr in overridden - {f.attr if sum(1 for t in trees.values() for c in t.body if isinstance(c, ast.ClassDef) for m in c.body if isinstance(m, ast.FunctionDef) and m.name == f.attr) == 1 else None}:
+                    continue
+                if any(ast.unparse(d) not in ("staticmethod",) for d in meth.decorator_list):
+                    continue
+                fn = copy.deepcopy(meth)
+                if not _bring_names(fn, _module_bindings(src), src_mod, tree, here):
+                    continue
+                cls.body.append(fn)
+                own.add(f.attr)
+                if f.value.id in bases:
+                    f.value = ast.copy_location(ast.Name(id=cls.name, ctx=ast.Load()), f.value)
+                done.append(f"{b}.{f.attr} -> {cls.name}")
+                break
+    if done:
+        ast.fix_missing_locations(tree)
+    return done
+
+
 def import_private_methods(tree, trees, pkg, modname, fold_only=False):
     """`X._helper(a, b)` where X is a module-level object built once by `C(...)` and C (defined here or imported from a module of
     the package) has the plain private method `_helper`: the method is copied as the module function `_C_helper(self, ..)` and the
@@ -1259,7 +1341,8 @@ def import_private_methods(tree, trees, pkg, modname, fold_only=False):
         if not (isinstance(f, ast.Attribute) and isinstance(f.value, ast.Name) and f.value.id in inst and not f.attr.startswith("__")):
             continue
         cdef, src, src_mod = classes[inst[f.value.id]]
-        if not f.attr.startswith("_") and (cdef.name in ("TdfType", "BTSString", "BTSDate", "CameraViewPort", "Tdf", "TdfEntry")
+        composite = cdef.name == "TdfType" and f.attr not in ("bread", "bwrite", "skip", "bpad", "read", "write", "pad", "nBytes", "itemsize")
+        if not f.attr.startswith("_") and not composite and (cdef.name in ("TdfType", "BTSString", "BTSDate", "CameraViewPort", "Tdf", "TdfEntry")
                                            or sum(isinstance(m_, ast.FunctionDef) for m_ in cdef.body) > 6 or cdef.bases and any(ast.unparse(b_) not in ("object",) for b_ in cdef.bases)):
             # public methods are brought over only for small helper classes (a field descriptor, a named pair of operations) - never for
             # the codec primitives, whose calls are the atoms of the layout interpreter
@@ -1782,9 +1865,135 @@ def _absorb_after_suppress(tree):
                     break
 
 
+def _merge_private_bases(tree):
+    """class _B: <members>       class C(_B): <members>     with _B private, defined in this module, without bases / decorators /
+    metaclass of its own, subclassed by C only and named nowhere else: C's attribute lookup finds _B's members exactly where it
+    would find its own, so they are moved into C (those C does not define itself) and the base is dropped."""
+    n = 0
+    classes = {c.name: c for c in tree.body if isinstance(c, ast.ClassDef)}
+    for b in list(classes.values()):
+        if not b.name.startswith("_") or b.bases or b.keywords or b.decorator_list:
+            continue
+        subs = [c for c in classes.values() if any(isinstance(x, ast.Name) and x.id == b.name for x in c.bases)]
+        uses = [x for x in ast.walk(tree) if isinstance(x, ast.Name) and x.id == b.name]
+        if len(subs) != 1 or len(uses) != 1 or len(subs[0].bases) != 1 or subs[0].keywords:
+            continue
+        c = subs[0]
+        if any(isinstance(m, ast.FunctionDef) and any(isinstance(y, ast.Call) and ast.unparse(y.func) == "super" for y in ast.walk(m)) for m in b.body + c.body):
+            continue
+        own = {m.name for m in c.body if isinstance(m, (ast.FunctionDef, ast.ClassDef))} | {t.id for m in c.body if isinstance(m, ast.Assign) for t in m.targets if isinstance(t, ast.Name)}
+        moved = [m for m in b.body if not (isinstance(m, ast.Expr) and isinstance(m.value, ast.Constant)) and not (isinstance(m, ast.FunctionDef) and m.name in own)
+                 and not (isinstance(m, ast.Assign) and any(isinstance(t, ast.Name) and t.id in own for t in m.targets)) and not isinstance(m, ast.Pass)]
+        doc = [m for m in c.body[:1] if isinstance(m, ast.Expr) and isinstance(m.value, ast.Constant)]
+        c.body = doc + moved + c.body[len(doc):]
+        c.bases = []
+        tree.body.remove(b)
+        n += 1
+    return n
+
+
+class _LoopPrefixSkip(ast.NodeTransformer):
+    """for n, x in enumerate(XS): if n <= K: continue; BODY      ==>     for n, x in enumerate(XS[K + 1:], start=K + 1): BODY
+       (`n < K` -> XS[K:], start=K).  K is a plain name that the loop does not assign; XS a name / attribute chain the loop header
+       evaluates once either way.  Same elements, same order, same values of n inside BODY."""
+
+    def visit_For(self, node):
+        self.generic_visit(node)
+        it = node.iter
+        if not (isinstance(it, ast.Call) and ast.unparse(it.func) == "enumerate" and len(it.args) == 1 and not it.keywords and isinstance(node.target, ast.Tuple)
+                and len(node.target.elts) == 2 and all(isinstance(e, ast.Name) for e in node.target.elts) and not node.orelse and len(node.body) >= 2):
+            return node
+        xs = it.args[0]
+        if not all(isinstance(y, (ast.Name, ast.Attribute, ast.Load)) for y in ast.walk(xs)):
+            return node
+        n = node.target.elts[0].id
+        g = node.body[0]
+        if not (isinstance(g, ast.If) and not g.orelse and len(g.body) == 1 and isinstance(g.body[0], ast.Continue) and isinstance(g.test, ast.Compare) and len(g.test.ops) == 1
+                and isinstance(g.test.left, ast.Name) and g.test.left.id == n and isinstance(g.test.ops[0], (ast.Lt, ast.LtE)) and isinstance(g.test.comparators[0], ast.Name)):
+            return node
+        k = g.test.comparators[0].id
+        if any(isinstance(y, ast.Name) and y.id in (k, n) and isinstance(y.ctx, ast.Store) for b in node.body for y in ast.walk(b)):
+            return node
+        if any(isinstance(y, (ast.Break,)) for b in node.body[1:] for y in ast.walk(b)) and False:
+            return node
+        lo = ast.Name(id=k, ctx=ast.Load()) if isinstance(g.test.ops[0], ast.Lt) else ast.BinOp(left=ast.Name(id=k, ctx=ast.Load()), op=ast.Add(), right=ast.Constant(value=1))
+        import copy as _cp
+        node.iter = ast.Call(func=it.func, args=[ast.Subscript(value=xs, slice=ast.Slice(lower=_cp.deepcopy(lo), upper=None, step=None), ctx=ast.Load())],
+                             keywords=[ast.keyword(arg="start", value=_cp.deepcopy(lo))])
+        node.body = node.body[1:]
+        return ast.fix_missing_locations(node)
+
+
+class _BytesIOWith(ast.NodeTransformer):
+    """with BytesIO() as b: BODY     ==>     b = BytesIO(); BODY      (closing an in-memory buffer has no effect a caller can see;
+    what BODY took out of it - getvalue() - is a copy)"""
+
+    def visit_With(self, node):
+        self.generic_visit(node)
+        if len(node.items) == 1 and isinstance(node.items[0].optional_vars, ast.Name) and isinstance(node.items[0].context_expr, ast.Call) \
+                and ast.unparse(node.items[0].context_expr.func) in ("BytesIO", "io.BytesIO") and not node.items[0].context_expr.args and not node.items[0].context_expr.keywords:
+            b = node.items[0].optional_vars.id
+            return [ast.copy_location(ast.Assign(targets=[ast.Name(id=b, ctx=ast.Store())], value=node.items[0].context_expr), node)] + node.body
+        return node
+
+
+def _success_flag_finally(tree):
+    """ok = False                                        try:
+       try:                                                   BODY
+           BODY; ok = True; [return X]        ==>             [return X]
+       finally:                                            except BaseException:
+           if not ok: CLEANUP                                  CLEANUP
+                                                               raise
+    The flag is a local that is assigned exactly twice (False before the try, True as the last statement before the end / the single
+    trailing return of the try body) and read only by the finally test: CLEANUP runs exactly on the paths that leave BODY by an
+    exception, and the exception goes on."""
+    n = 0
+    for fn in [f for f in ast.walk(tree) if isinstance(f, ast.FunctionDef)]:
+        for holder in ast.walk(fn):
+            for fld in ("body", "orelse", "finalbody"):
+                blk = getattr(holder, fld, None)
+                if not isinstance(blk, list):
+                    continue
+                for i in range(len(blk) - 1):
+                    a, t = blk[i], blk[i + 1]
+                    if not (isinstance(a, ast.Assign) and len(a.targets) == 1 and isinstance(a.targets[0], ast.Name) and isinstance(a.value, ast.Constant) and a.value.value is False):
+                        continue
+                    flag = a.targets[0].id
+                    if not (isinstance(t, ast.Try) and not t.handlers and not t.orelse and len(t.finalbody) == 1 and isinstance(t.finalbody[0], ast.If) and not t.finalbody[0].orelse):
+                        continue
+                    test = t.finalbody[0].test
+                    if not (isinstance(test, ast.UnaryOp) and isinstance(test.op, ast.Not) and isinstance(test.operand, ast.Name) and test.operand.id == flag):
+                        continue
+                    body = t.body
+                    tail = body[-1:] if body and isinstance(body[-1], ast.Return) else []
+                    core = body[:-1] if tail else body
+                    if not core or not (isinstance(core[-1], ast.Assign) and len(core[-1].targets) == 1 and isinstance(core[-1].targets[0], ast.Name) and core[-1].targets[0].id == flag
+                                        and isinstance(core[-1].value, ast.Constant) and core[-1].value.value is True):
+                        continue
+                    uses = [x for x in ast.walk(fn) if isinstance(x, ast.Name) and x.id == flag]
+                    if len(uses) != 3:
+                        continue
+                    if tail and tail[0].value is not None and any(isinstance(y, ast.Call) for y in ast.walk(tail[0].value)):
+                        continue   # a call in the returned expression could raise after the flag was set
+                    if any(isinstance(y, (ast.Return, ast.Break, ast.Continue)) for b in core[:-1] for y in ast.walk(b) if not isinstance(b, (ast.FunctionDef,))):
+                        continue
+                    handler = ast.ExceptHandler(type=ast.Name(id="BaseException", ctx=ast.Load()), name=None, body=list(t.finalbody[0].body) + [ast.Raise(exc=None, cause=None)])
+                    new_try = ast.copy_location(ast.Try(body=core[:-1] + tail, handlers=[handler], orelse=[], finalbody=[]), t)
+                    blk[i:i + 2] = [new_try]
+                    n += 1
+                    break
+    if n:
+        ast.fix_missing_locations(tree)
+    return n
+
+
 def normalise_module(tree: ast.Module):
     info = {"constants": 0, "inlined": {}, "dropped_helpers": []}
     _StripFunctionAnnotations().visit(tree)
+    _success_flag_finally(tree)
+    _LoopPrefixSkip().visit(tree)
+    _BytesIOWith().visit(tree)
+    _merge_private_bases(tree)
     _drop_overload_stubs(tree)
     if any(isinstance(st, (ast.Import, ast.ImportFrom)) and any("suppress" in (a.name, a.asname) or a.name == "contextlib" for a in st.names) for st in tree.body):
         _SuppressToTry().visit(tree)
